@@ -117,6 +117,19 @@ CHECKS = {
         note="Trusted: TLC, the JSON-RPC client, the realisation of abstract texts, the Python model of client-side edit application. Domain: protocol-conforming notifications; files on disk unchanged during a history.",
         technique="TLA+ state machine of the language server (TLC, all histories up to 5/7 events) + replay of TLC-generated histories on the real oal-lsp with a fresh-server oracle + in-process text-drift check",
     ),
+    "C08": dict(
+        design_ref="DESIGN.md 3.6 (Resolve.tla), 4 (C08)",
+        text="TLC model-checks Resolve.tla: the steps of resolve() (standard library, imports, declarations, pre-order traversal with "
+             "Open/Define/Close on the scope stack, definition-graph edges) agree with a declarative binding relation (innermost rec "
+             "binder, parameter, declaration regardless of order, import by qualifier, built-in) on every member of the Scopes family "
+             "(one contested name bound simultaneously by every subset of binders x every use site, three modules); a second "
+             "configuration keeps the pinned single root scope, where TLC itself finds the declaration/import collision. Every member "
+             "is rendered in four trivia styles and resolved by the real resolve(): error class or complete binding table (every "
+             "Variable's definition mapped back through the source map) must equal the specification's; for members the real compiler "
+             "accepts, marker properties in the evaluated document show that evaluation used the value of the chosen binder.",
+        note="Trusted: TLC, renderer and source map (cross-checked by tree2ast), hook H2. Two unqualified imports of the same name are outside the domain.",
+        technique="TLA+ state machine of name resolution vs declarative binding relation (TLC, Scopes family) + spec->impl replay comparing complete binding tables and evaluated markers",
+    ),
 }
 
 PENDING_REASON = "check not built yet (work in progress; see DESIGN.md section 8 for the build order)"
